@@ -21,7 +21,7 @@ C05  Selection objectives mean what they say in every decision encoding
 import ast
 from fractions import Fraction
 
-from sa.astutil import dump, where, kwargs_of, walk_no_nested, field_of
+from sa.astutil import dump, where, kwargs_of, walk_no_nested, field_of, is_guard
 from sa.model import body_nodoc, AnalysisError
 from sa.vn import VN, Poly, VNUnknown, comparable
 
@@ -539,9 +539,10 @@ def check_chunks(prog, rep):
                             "chunk size)" % (out, dump(n.slice), rst, rsp), where(f, n), "%s[%s:%s, :]" % (out, rst, rsp), dump(n)[:50])
                 good = False
     # `mem` flows only into the step
+    guard_names = {id(x) for g in walk_no_nested(f.node) if is_guard(g) for x in ast.walk(g)}
     for n in walk_no_nested(f.node):
         if isinstance(n, ast.Name) and n.id == "mem" and isinstance(n.ctx, ast.Load):
-            par_ok = any(n in list(ast.walk(v)) for k, v in defs.items() if k == s)
+            par_ok = any(n in list(ast.walk(v)) for k, v in defs.items() if k == s) or id(n) in guard_names     # (an argument check that only raises is not a use)
             if not par_ok:
                 rep.violate("R6-chunks", construct, "the memory-chunk parameter is used outside the chunk step", where(f, n), "mem only in the step", "other use")
                 good = False
